@@ -250,6 +250,20 @@ def run(ctx):
     ef = prog.fn(CA + "enc_float")
     for helper in ("is_exact_int", "can_fit_f16", "can_fit_f32"):
         rep.check(bool(dv.call_sites(helper + "$")), "C12.R3", "float-ladder:decoder:%s" % helper, "decoder consults %s" % helper, "decoder no longer consults %s" % helper, site=dv.loc())
+    # sibling agreement of the width ladder: the writer picks a width by an inline round-trip equality
+    # (`f16::from_f64(f).to_f64() == f`, `f64::from(f as f32) == f`); the reader's `can_fit_*` predicates must be that same
+    # test and nothing else.  A verdict "does not fit" that comes from anywhere but the round-trip equality (a range
+    # pre-check returning false) lets the reader accept a wider spelling of a value the writer emits narrow.
+    for helper, conv in (("can_fit_f16", r"from_f64$|to_f64$"), ("can_fit_f32", r"")):
+        h = prog.fn(CA + helper)
+        falses = ret_const_blocks(h, "false")
+        rep.check(not falses, "C12.R3", "float-ladder:%s:only-round-trip-says-no" % helper, "no constant `false` verdict: not-fitting is decided by the round-trip equality alone",
+                  "%s returns a constant false at line %s: the reader's fit test is no longer the writer's round-trip test (a non-minimal float spelling can be accepted)" % (helper, [h.block_line(b) for b in falses]),
+                  site=h.loc())
+        og = h.origins()
+        eqs = [c for c in comparisons(h) if c[1] in ("Eq", "eq") and any(a.kind == "param" for a in og.of_operand(c[2], deep=True)) and any(a.kind == "param" for a in og.of_operand(c[3], deep=True))]
+        rep.check(len(eqs) == 1 and (not conv or bool(h.call_sites(conv))), "C12.R3", "float-ladder:%s:round-trip-equality" % helper, "one round-trip equality on the argument",
+                  "%s has %d equality tests relating the argument to its narrowed form" % (helper, len(eqs)), site=h.loc())
     for wr_ in ("write_half", "write_f32", "write_f64", "enc_int"):
         rep.check(bool(ef.call_sites(wr_ + "$")), "C12.R3", "float-ladder:encoder:%s" % wr_, "encoder can emit %s" % wr_, "enc_float lost its %s rung" % wr_, site=ef.loc())
     rep.check(len(comparisons(ef)) >= 3, "C12.R3", "float-ladder:encoder:round-trip-tests", "encoder tests exact representability before choosing a width (%d comparisons)" % len(comparisons(ef)),
